@@ -6,7 +6,7 @@ import tgen
 #          wrapped value as a generator value given the inner value's s-expression)
 POSITIONS = ["field", "root", "tuple-elem", "enum-elem", "slice-elem", "set-elem", "map-value", "ok", "err",
              "nested-field", "tuple-index", "index", "deref", "method", "wildcard-field", "struct-variant-field", "method-value",
-             "method-then-field", "method-then-index"]
+             "method-then-field", "method-then-index", "tuple-index-chain"]
 
 
 # The same sweep one reference level up: the value handed to the pattern is a `&T`.  The comparator is a struct field of type
@@ -84,6 +84,10 @@ def wrap(pos, g, t, v, pat):
         # the method returns the value itself (a temporary), not a reference into the struct
         return ("#[derive(Debug)] struct W { f: %s }\nimpl W { fn get(&self) -> %s { self.f.clone() } }\n#[derive(Debug)] struct W2 { w: W }" % (T, T),
                 "W2", "W2 { w: W { f: %s } }" % E, "W2 { w.get(): %s }" % pat, adt("W2", ["w"], [adt("W", ["f"], [S])]))
+    if pos == "tuple-index-chain":
+        # two consecutive tuple indices reach the macro as ONE float literal token (`0.1`); the mirrored path `t.1.0` does not exist
+        return ("#[derive(Debug)] struct W { t: ((u8, %s), u8) }" % T, "W", "W { t: ((1u8, %s), 1u8) }" % E, "W { t.0.1: %s }" % pat,
+                adt("W", ["t"], ["(tuple (tuple (int 1) %s) (int 1))" % S]))
     if pos == "method-then-field":
         # a projection AFTER a call: `h.id().f` is a place inside the value the call returned a reference to
         return ("#[derive(Debug)] struct H { f: %s }\nimpl H { fn id(&self) -> &H { self } }\n#[derive(Debug)] struct W2 { h: H }" % T,
@@ -102,5 +106,5 @@ POSITION_CLASS = {
     "struct-variant-field": "reference-binding", "wildcard-field": "reference-to-place",
     "ref-field": "reference-binding", "root-borrow": "root-written-as-borrow", "root-borrow-paren": "root-written-as-borrow",
     "root-ref-var": "reference-binding", "tuple-elem-ref": "reference-binding",
-    "nested-field": "place", "tuple-index": "place", "index": "place", "deref": "place", "method": "method-result", "method-value": "temporary", "method-then-field": "place", "method-then-index": "place",
+    "nested-field": "place", "tuple-index": "place", "index": "place", "deref": "place", "method": "method-result", "method-value": "temporary", "method-then-field": "place", "method-then-index": "place", "tuple-index-chain": "place",
 }
